@@ -771,9 +771,47 @@ pub fn plausible_response() -> BoxedStrategy<Vec<u8>> {
         .boxed()
 }
 
+/// A packet whose SMBus byte count announces a frame that ends *inside* the
+/// byte string (or exactly at its end), with the byte at the announced PEC
+/// position made consistent with the bytes before it: what a receiver that
+/// trusts the byte count rather than the slice length would take for a
+/// complete, intact frame.  Small counts (frames that end inside the headers)
+/// are weighted up.  The real final byte is repaired or not.
+pub fn announce_inner_frame(mut p: Vec<u8>, k: u8, repair: bool) -> Vec<u8> {
+    if p.len() >= 3 {
+        p[2] = k;
+        let pos = k as usize + 3;
+        if pos < p.len() && pos >= 3 {
+            p[pos] = crate::crc::crc8(&p[..pos]);
+        }
+        if repair {
+            refmodel::fix_pec(&mut p);
+        }
+    }
+    p
+}
+
+pub fn inner_frame_packet() -> BoxedStrategy<Vec<u8>> {
+    (
+        prop_oneof![3 => ref_valid_packet(), 2 => random_behind_header(), 1 => grammar_packet()],
+        prop_oneof![3 => 0u8..=9, 2 => any::<u16>().prop_map(|x| (x >> 8) as u8), 1 => any::<u8>()],
+        any::<u16>(),
+        any::<bool>(),
+        any::<bool>(),
+    )
+        .prop_map(|(p, small, pos, use_small, repair)| {
+            let n = p.len();
+            // either a small count or one that lands somewhere inside this packet
+            let k = if use_small || n < 5 { small } else { ((pos as usize * (n - 3)) >> 16) as u8 };
+            announce_inner_frame(p, k, repair)
+        })
+        .boxed()
+}
+
 /// The standard mix of receive-path inputs.
 pub fn recv_input() -> BoxedStrategy<Vec<u8>> {
     prop_oneof![
+        2 => inner_frame_packet(),
         8 => grammar_packet(),
         3 => ref_valid_packet(),
         3 => mutated_valid_packet(),
